@@ -11,7 +11,7 @@ func relayCfg(id, tier string) relay.Config {
 	switch id {
 	case "C01":
 		c := relay.Config{Prop: id, Chains: 2, MaxSends: 2, Depth: 11,
-			Sends:     []string{"A B erc20 3", "B A native 3"},
+			Sends:     []string{"A B erc20 3", "B A native 3", "A B erc20+callrevert 1"},
 			RecvForms: []string{"g1", "g2", "reenc", "alt", "old", "mis", "dup2", "dupblk"},
 			AckForms:  []string{"g1"}}
 		if tier == "thorough" {
@@ -38,7 +38,7 @@ func relayCfg(id, tier string) relay.Config {
 		return c
 	case "C04":
 		c := relay.Config{Prop: id, Chains: 3, MaxSends: 3, Depth: 6,
-			Sends: []string{"A B erc20 1", "A C erc20 1", "A B unknown 1", "A B erc20 20000", "A B feeonly1 1", "A B direct 1", "B A erc20+agentgood 3", "A B native 1"},
+			Sends: []string{"A B erc20 1", "A C erc20 1", "A B unknown 1", "A B erc20 20000", "A B feeonly1 1", "A B direct 1", "B A erc20+agentgood 3", "B A erc20+agentbad 3", "A B native 1"},
 			RecvForms: []string{"g1"}, AckForms: []string{"g1"}}
 		if tier == "thorough" {
 			c.MaxSends, c.Depth = 4, 9
